@@ -5,6 +5,7 @@ import AasVerif.Lemmas.Lit.Cpp
 import AasVerif.Lemmas.Lit.Ts
 import AasVerif.Lemmas.Lit.Java
 import AasVerif.Lemmas.Lit.Wchar
+import AasVerif.Lemmas.Lit.Bytes
 /-!
 # C19 — Emitted literals denote exactly the original values
 
@@ -337,5 +338,18 @@ theorem py_needs_escaping_iff (s : Text) :
 example : enc_cppc [0xDFFF] = .ok (Text.ofString "static_cast<wchar_t>(0xdfff)") := by decide
 example : dec_cppc (Text.ofString "static_cast<wchar_t>(0xdfff)") = some [0xDFFF] := by decide
 example : dec_cppc (Text.ofString "L'\\x1f'") = some [31] := by decide
+
+/-! ## bytes literals -/
+
+/-- Python `bytes_literal` (single line for up to 8 bytes, else one `b"…"` per 8 bytes):
+the literal, read as adjacent bytes literals inside parentheses, is exactly the original bytes. -/
+theorem py_bytes_roundtrip (b : List Nat) (hb : ∀ x ∈ b, x < 256) :
+    decbytes_py (bytes_py b).1 = some b := bytes_py_roundtrip b hb
+
+example : (bytes_py [0, 1, 2, 3, 4, 5, 6, 7, 255]).1 =
+    Text.ofString "b\"\\x00\\x01\\x02\\x03\\x04\\x05\\x06\\x07\"\nb\"\\xff\"" := by decide
+/-- known finding C19-F1: the multi-line Go composite literal is not valid Go (automatic semicolon) -/
+example : decbytes_go (bytes_go [0, 1, 2, 3, 4, 5, 6, 7, 8]).1 = none := by decide
+example : decbytes_go (bytes_go [0, 1, 2]).1 = some [0, 1, 2] := by decide
 
 end AasVerif.Props.C19
